@@ -186,6 +186,7 @@ void FlexPath::apply_repetition(Array<FlexPath*>& result) {
     Array<Vec2> offsets = {};
     repetition.get_offsets(offsets);
     repetition.clear();
+    if (offsets.count == 0) return;  // zero columns or rows: nothing to copy
 
     // Skip first offset (0, 0)
     Vec2* offset_p = offsets.items + 1;
